@@ -131,6 +131,12 @@ def regen(ck):
 
 
 def run(ck):
+    # coq/gen/GenRoutes.v is shared by every run of this check (also runs against a scratch VERIF_REPO): serialise them
+    with vcheck.Lock("c20run"):
+        run_locked(ck)
+
+
+def run_locked(ck):
     ck.trusted += [
         "C20: translate/gen_routes' reading of main.go and of the functions the router value is passed to (go/ast; package main cannot be linked). "
         "Checked by: every registration call site of a file importing gorilla/mux must be reached (else OUnknown fails assembly_ok), and "
